@@ -934,7 +934,7 @@ class TransportLayerLogic:
                 if pdu.data is not None:
                     frame_complete = True
                     self.rx_queue.put(bytearray(pdu.data))
-                    self.rx_state = self.RxState.IDLE
+                    self._stop_receiving()
                     self._trigger_error(isotp.errors.ReceptionInterruptedWithSingleFrameError(
                         'Reception of IsoTP frame interrupted with a new SingleFrame'))
 
@@ -1375,8 +1375,8 @@ class TransportLayerLogic:
         if pdu.length > self.params.max_frame_size:
             self._trigger_error(isotp.errors.FrameTooLongError(
                 "Received a First Frame with a length of %d bytes, but params.max_frame_size is set to %d bytes. Ignoring" % (pdu.length, self.params.max_frame_size)))
+            self._stop_receiving()
             self._request_tx_flowcontrol(PDU.FlowStatus.Overflow)
-            self.rx_state = self.RxState.IDLE
         else:
             self.rx_state = self.RxState.WAIT_CF
             self.rx_frame_length = pdu.length
